@@ -106,6 +106,8 @@ class Ref:
         self.log = log if log is not None else []
         self.marks = []             # (begin, end) index pairs of free-order brackets in self.log
         self.handler_calls = []
+        self.repeat = RefRepeat()
+        self.helpers.setdefault('repeat', self.repeat)
 
     # ---- expressions (TALES) ---------------------------------------------------------------
     def ev(self, e, scope, default_ok=False):
@@ -273,9 +275,18 @@ class Ref:
                 n = len(items)
                 sep = ('\n' + ' ' * node['indent']) if node.get('indent') is not None else ''
                 rframe = scope.push()
+                key = name if isinstance(name, str) else tuple(name)
                 try:
                     for i, item in enumerate(items):
-                        rframe[name] = item
+                        if isinstance(name, str):
+                            rframe[name] = item
+                        else:
+                            parts = tuple(item)
+                            if len(parts) != len(name):
+                                raise ValueError('unpack')
+                            for nm, pv in zip(name, parts):
+                                rframe[nm] = pv
+                        self.repeat.items[key] = RefRepeatItem(i, n)
                         self.once(node, scope, out)
                         if i < n - 1:
                             out.append(sep)
@@ -375,6 +386,55 @@ class Ref:
         else:
             s = s + '>'
         return s
+
+
+class RefRepeatItem:
+    """repeat variable per docs/reference.rst 'Repeat variables' (closed forms, own implementation)"""
+
+    def __init__(self, pos, length):
+        self.index = pos
+        self.number = pos + 1
+        self.even = pos % 2 == 0
+        self.odd = pos % 2 == 1
+        self.parity = 'odd' if pos % 2 == 1 else 'even'
+        self.start = pos == 0
+        self.end = pos == length - 1
+        self.length = length
+
+    @property
+    def letter(self):
+        # documented for the first 26 positions without ambiguity
+        return 'abcdefghijklmnopqrstuvwxyz'[self.index] if self.index < 26 else '?'
+
+    @property
+    def Letter(self):
+        return self.letter.upper()
+
+    @property
+    def Roman(self):
+        n = self.number
+        ones = ('', 'I', 'II', 'III', 'IV', 'V', 'VI', 'VII', 'VIII', 'IX')
+        tens = ('', 'X', 'XX', 'XXX', 'XL', 'L', 'LX', 'LXX', 'LXXX', 'XC')
+        hund = ('', 'C', 'CC', 'CCC', 'CD', 'D', 'DC', 'DCC', 'DCCC', 'CM')
+        return 'M' * (n // 1000) + hund[n // 100 % 10] + tens[n // 10 % 10] + ones[n % 10]
+
+    @property
+    def roman(self):
+        return self.Roman.lower()
+
+
+class RefRepeat:
+    def __init__(self):
+        self.items = {}
+
+    def __getattr__(self, name):
+        try:
+            return self.__dict__['items'][name]
+        except KeyError:
+            raise AttributeError(name)
+
+    def __getitem__(self, name):
+        return self.items[name]
 
 
 class ErrorView:
